@@ -517,6 +517,41 @@ HAND = [
 ]
 
 
+# Python 3.12 constructs the generator may meet (label, mode, source): each is either regenerated faithfully or rejected
+# (tree oracle on raw / api), runs through every model stream, and is counted as py312:<label>:<via>:<outcome> in dist
+HAND_312 = [
+    ('match', 'exec', 'match x:\n    case 1:\n        pass\n    case [a, *b]:\n        pass\n    case {"k": v, **r}:\n        pass\n    case P(x=1) | None:\n        pass\n    case _ if g:\n        pass'),
+    ('walrus', 'eval', '(y := f(x))'), ('walrus', 'eval', '[y for x in z if (y := x)]'), ('walrus', 'exec', 'while (n := f()): pass'),
+    ('fstring', 'eval', "f'{a}'"), ('fstring', 'eval', "f'{a!r:>{w}}'"), ('fstring', 'eval', "f'{d[\"k\"]}'"),
+    ('fstring', 'eval', "f'{x:{y}.{z}}'"), ('fstring', 'eval', "f'{f\"{a}\"}'"), ('fstring', 'eval', "f'{a=}'"),
+    ('async-comp', 'eval', '[x async for x in y]'), ('async-comp', 'eval', '(x async for x in y)'),
+    ('async-comp', 'eval', '(x async for x in y if x async for z in x)'), ('await', 'eval', '[await x for x in y]'),
+    ('async-comp', 'eval', '{x async for x in y}'), ('async-def', 'exec', 'async def f():\n    return [x async for x in y]'),
+    ('async-def', 'exec', 'async def f():\n    async with a as b: pass\n    async for x in y: pass\n    await z'),
+    ('star-index', 'eval', 'a[*b]'), ('star-index', 'eval', 'a[*b, c]'), ('star-index', 'eval', 'a[1:2, *b]'),
+    ('star-index', 'exec', 'a[*b] = 1'), ('star-index', 'exec', 'del a[*b]'),
+    ('star-return', 'exec', 'def f():\n    return *a, b'), ('star-return', 'exec', 'def f():\n    yield *a, b'),
+    ('star-return', 'exec', 'def f():\n    return 1, *a'), ('star-return', 'exec', 'for x in *a, b: pass'), ('star-return', 'exec', 'x = *a, b'),
+    ('posonly', 'exec', 'def f(a, /, b, *, c): pass'), ('posonly', 'eval', 'lambda a, /, b=1, *, c: a'), ('posonly', 'exec', 'def f(a=1, /): pass'),
+    ('posonly', 'exec', 'def f(a, /, *args, **kw): pass'), ('posonly', 'exec', 'def f(a: int = 1, /, b: str = 2, *c: int, d: int = 3, **e: int) -> int: pass'),
+    ('type-alias', 'exec', 'type X = int'), ('type-alias', 'exec', 'type X[T] = list[T]'),
+    ('type-params', 'exec', 'def f[T](x: T) -> T: pass'), ('type-params', 'exec', 'class A[T]: pass'), ('type-params', 'exec', 'def f[*Ts, **P](): pass'),
+    ('except-star', 'exec', 'try:\n    pass\nexcept* E:\n    pass'), ('except-star', 'exec', 'try:\n    pass\nexcept* (A, B) as e:\n    pass'),
+    ('annassign', 'exec', 'x: int = 1'), ('annassign', 'exec', 'x: int'), ('nonlocal', 'exec', 'def f():\n    x = 1\n    def g():\n        nonlocal x'),
+    ('yield-from', 'exec', 'def f():\n    yield from g()'), ('matmult', 'eval', 'a @ b'), ('matmult', 'exec', 'a @= b'),
+    ('set', 'eval', '{1, 2}'), ('set', 'eval', '{k: v for k, v in x}'), ('set', 'eval', '{*a, *b}'), ('dict-unpack', 'eval', '{**a, "k": 1}'),
+    ('paren-with', 'exec', 'with (a as b, c as d): pass'), ('call-star', 'eval', 'f(*a, **k)'), ('call-star', 'eval', 'f(**a, **b)'),
+    ('number', 'eval', '1_000'), ('number', 'eval', '0x_ff'), ('number', 'eval', '1e400'), ('number', 'eval', '-1e400'), ('number', 'eval', '1j'),
+    ('string', 'eval', "b'a' b'b'"), ('string', 'eval', "'a' 'b'"), ('ellipsis', 'eval', '...'), ('ellipsis', 'eval', 'a[...]'), ('ellipsis', 'eval', 'a[..., 1]'),
+    ('import', 'exec', 'import a.b.c as d'), ('import', 'exec', 'from .. import x'), ('import', 'exec', 'from .a import *'), ('import', 'exec', 'from a import (b, c)'),
+    ('class', 'exec', '@a.b(c)\n@d\nclass X(Y, metaclass=M, **kw): pass'), ('raise', 'exec', 'raise E from None'),
+    ('try', 'exec', 'def f():\n    try:\n        pass\n    except E:\n        pass\n    return x'),
+    ('try', 'exec', 'try:\n    pass\nfinally:\n    pass\nx'), ('try', 'exec', 'try:\n    a\nexcept E:\n    b\nelse:\n    c\nfinally:\n    d'),
+    ('try', 'exec', 'if a:\n    try:\n        b\n    except:\n        c\nelse:\n    d'),
+    ('yield', 'eval', '(yield)'), ('yield', 'eval', 'lambda: (yield)'), ('slice', 'eval', 'x[a:b:c]'), ('slice', 'eval', 'x[::]'), ('slice', 'eval', 'x[a,]'),
+    ('tuple', 'eval', 'x[()]'), ('tuple', 'eval', '()'), ('tuple', 'eval', '(a,)'), ('tuple', 'eval', '[*a]'), ('tuple', 'eval', '(*a, b)'),
+]
+
 HAND_EFFECT = [
     ('x = 1\ndef f(): return x\nx = 2\nr = f()', {}),
     ('def f(n):\n    if n <= 0: return 0\n    return n + f(n - 1)\nr = f(3)', {}),
@@ -1114,6 +1149,14 @@ def shard(arg):
     cases = gen_cases(rng, n_expr, n_stmt)
     if idx == 0:
         cases = [{'mode': m, 'src': s, 'via': v} for m, s in HAND for v in ('raw', 'api')] + cases
+        for lab, m, s_ in HAND_312:
+            for v in ('raw', 'api'):
+                c = {'mode': m, 'src': s_, 'via': v}
+                try:
+                    res.count('py312:%s:%s:%s' % (lab, v, outcome_kind(c)))
+                except RecursionError:
+                    continue
+                cases.insert(0, c)
         for s_, d_ in HAND_EFFECT:
             f = oracle_effect({'mode': 'exec', 'via': 'effect', 'src': s_, 'data': d_})
             res.evaluations += 1
